@@ -338,6 +338,64 @@ Proof.
     + unfold skey. destruct (N.eqb (fst (sl (t_data t) x)) k); reflexivity.
     + destruct st as [[[a b] c] d0]. reflexivity.
 Qed.
+(* Has: the same walk as Get, handing back only whether the key was met *)
+Lemma gen_has_loop p : p <= 62 -> forall lf fuel d k idx ii sz ga hz zv,
+  length d = 2 ^ p -> idx < 2 ^ p -> k <> 0%N -> 2 ^ p - ii < lf ->
+  let r := go_UInt64Map_Has_loop1 fuel lf (gomap d sz ga hz zv) k (Z.of_nat idx) (Z.of_nat ii) in
+  match scan (stop_key k) (2 ^ p - ii) d (2 ^ p) (nxt (2 ^ p) idx) with
+  | Some x => fst r = GoRet (N.eqb (skey d x) k)
+  | None => fst r = GoNext
+  end.
+Proof.
+  intros Hp. induction lf as [|lf IH]; intros fuel d k idx ii sz ga hz zv Hlen Hidx Hk Hlf r; [lia|].
+  subst r.
+  assert (Hg0 : gomap d sz ga hz zv = mk_T_UInt64Map (rep d) sz ga (Z.of_nat (2 ^ p) - 1) hz zv) by (unfold gomap; rewrite Hlen; reflexivity).
+  rewrite Hg0.
+  cbn [go_UInt64Map_Has_loop1 T_UInt64Map_data T_UInt64Map_mask].
+  unfold go_len. rewrite rep_length, Hlen, zltb_nat.
+  destruct (Nat.ltb_spec ii (2 ^ p)) as [Hii|Hii].
+  - replace (2 ^ p - ii) with (S (2 ^ p - S ii)) by lia. cbn [scan].
+    rewrite (gen_next p idx Hidx). set (j := nxt (2 ^ p) idx).
+    assert (Hj : j < 2 ^ p).
+    { unfold j, nxt. destruct (Nat.ltb_spec (S idx) (2 ^ p)); [lia|]. pose proof (Nat.pow_nonzero 2 p); lia. }
+    rewrite rep_idx. change (T_Pair_Key (rep_slot (sl d j))) with (fst (sl d j)).
+    change (T_Pair_Value (rep_slot (sl d j))) with (snd (sl d j)).
+    unfold stop_key, skey.
+    destruct (N.eqb (fst (sl d j)) k) eqn:E1; [cbn [orb fst]; rewrite E1; reflexivity|].
+    destruct (N.eqb (fst (sl d j)) 0) eqn:E2; [cbn [orb fst]; rewrite E1; reflexivity|]. cbn [orb].
+    replace (Z.of_nat ii + 1)%Z with (Z.of_nat (S ii)) by lia.
+    rewrite <- Hg0. apply (IH fuel d k j (S ii) sz ga hz zv Hlen Hj Hk). lia.
+  - replace (2 ^ p - ii) with 0 by lia. reflexivity.
+Qed.
+Lemma gen_has p : p <= 62 -> forall fuel t k, length (t_data t) = 2 ^ p -> 2 ^ p < fuel ->
+  go_UInt64Map_Has fuel (gotab p t) k =
+  Some (thas go_mix t k).
+Proof.
+  intros Hp fuel t k Hlen Hf. unfold go_UInt64Map_Has, thas, tget.
+  assert (Hn0 : 0 < 2 ^ p) by (pose proof (Nat.pow_nonzero 2 p); lia).
+  destruct (N.eqb_spec k 0) as [->|Hk].
+  - unfold gotab, gom, zhas, zval. cbn [T_UInt64Map_hasZeroKey T_UInt64Map_zeroVal].
+    destruct (t_zero t); reflexivity.
+  - rewrite (gen_primaryIndex p (gotab p t) k Hp eq_refl).
+    set (h := hidx go_mix (2 ^ p) k).
+    assert (Hh : h < 2 ^ p) by (apply Proofs_cyc.hidx_lt; exact Hn0).
+    unfold gotab, gom. cbn [T_UInt64Map_data].
+    rewrite !rep_idx. change (T_Pair_Key (rep_slot (sl (t_data t) h))) with (fst (sl (t_data t) h)).
+    change (T_Pair_Value (rep_slot (sl (t_data t) h))) with (snd (sl (t_data t) h)).
+    unfold probe. rewrite Hlen. fold h.
+    rewrite scan_step by lia. unfold stop_key at 1. unfold skey.
+    destruct (N.eqb (fst (sl (t_data t) h)) k) eqn:E1; [cbn [orb]; rewrite ?E1; reflexivity|].
+    destruct (N.eqb (fst (sl (t_data t) h)) 0) eqn:E2; [cbn [orb]; rewrite ?E1; reflexivity|]. cbn [orb].
+    pose proof (gen_has_loop p Hp fuel fuel (t_data t) k h 1 (t_size t) (t_growAt t) (zhas t) (zval t) Hlen Hh Hk ltac:(lia)) as G.
+    cbv zeta in G. rewrite (gom_gomap p _ _ _ _ _ Hlen) in G. unfold gom in G.
+    change (Z.of_nat 1) with 1%Z in G. unfold gotab, gom.
+    match goal with |- context [go_UInt64Map_Has_loop1 ?a ?b ?c ?d ?e ?f] =>
+      destruct (go_UInt64Map_Has_loop1 a b c d e f) as [c0 st] end.
+    destruct (scan (stop_key k) (2 ^ p - 1) (t_data t) (2 ^ p) (nxt (2 ^ p) h)) as [x|]; simpl in G; subst c0.
+    + unfold skey. destruct (N.eqb (fst (sl (t_data t) x)) k); reflexivity.
+    + destruct st as [[[a b] c] d0]. reflexivity.
+Qed.
+
 
 
 (* ---- EvictKeysAt as a whole ---- *)
@@ -521,4 +579,42 @@ Proof.
       * cbn [orb]. replace (Z.of_nat ii + 1)%Z with (Z.of_nat (S ii)) by lia.
         pose proof (IH fuel t k v j (S ii) Hlen Hj Hk ltac:(lia)) as H. cbv zeta in H. unfold gotab, gom in H. exact H.
   - replace (2 ^ p - ii) with 0 by lia. split; reflexivity.
+Qed.
+
+(* ---- Clear as a whole: zero key dropped, every slot emptied, size 0 — the model's tclear ---- *)
+Fixpoint clr_run (n i : nat) (d : list slot) : list slot :=
+  match n with 0 => d | S n' => clr_run n' (S i) (upd i empty_slot d) end.
+Lemma firstn_upd_snoc i : forall (d : list slot) x, i < length d -> firstn (S i) (upd i x d) = firstn i d ++ [x].
+Proof.
+  induction i as [|i IH]; intros d x H; destruct d as [|y r]; simpl in *; try lia; [reflexivity|].
+  f_equal. apply IH. lia.
+Qed.
+Lemma clr_run_spec n : forall i d, length d = i + n -> clr_run n i d = firstn i d ++ repeat empty_slot n.
+Proof.
+  induction n as [|n IH]; intros i d H; simpl.
+  - rewrite app_nil_r. rewrite firstn_all2; [reflexivity|lia].
+  - rewrite IH by (rewrite upd_length; lia). rewrite firstn_upd_snoc by lia.
+    rewrite <- app_assoc. reflexivity.
+Qed.
+Lemma gen_clear_loop s1 n : forall lf i d sz ga mk hz zv z, length s1 = length d -> length d = i + n -> n < lf ->
+  go_UInt64Map_Clear_loop1 s1 lf (Z.of_nat i) (mk_T_UInt64Map (rep d) sz ga mk hz zv) z =
+  (GoNext, (mk_T_UInt64Map (rep (clr_run n i d)) sz ga mk hz zv, z)).
+Proof.
+  induction n as [|n IH]; intros lf i d sz ga mk hz zv z Hs Hd Hlf; (destruct lf as [|lf]; [lia|]);
+    cbn [go_UInt64Map_Clear_loop1 T_UInt64Map_data T_UInt64Map_size T_UInt64Map_growAt T_UInt64Map_mask T_UInt64Map_hasZeroKey T_UInt64Map_zeroVal];
+    unfold go_len; rewrite Hs, zltb_nat.
+  - destruct (Nat.ltb_spec i (length d)); [lia|]. reflexivity.
+  - destruct (Nat.ltb_spec i (length d)); [|lia].
+    change (mk_T_Pair 0%N 0%N) with (rep_slot empty_slot). rewrite rep_upd.
+    replace (Z.of_nat i + 1)%Z with (Z.of_nat (S i)) by lia.
+    rewrite (IH lf (S i) (upd i empty_slot d)); [reflexivity| | |lia]; rewrite upd_length; lia.
+Qed.
+Lemma gen_clear p t : length (t_data t) = 2 ^ p -> go_UInt64Map_Clear (gotab p t) = gotab p (tclear t).
+Proof.
+  intros Hlen. unfold go_UInt64Map_Clear, gotab, gom.
+  cbn [T_UInt64Map_data T_UInt64Map_size T_UInt64Map_growAt T_UInt64Map_mask T_UInt64Map_hasZeroKey T_UInt64Map_zeroVal].
+  rewrite (gen_clear_loop (rep (t_data t)) (length (t_data t)) (S (length (rep (t_data t)))) 0 (t_data t));
+    [|apply rep_length|reflexivity|rewrite rep_length; lia].
+  rewrite clr_run_spec by reflexivity. simpl firstn. simpl app.
+  unfold tclear, zhas, zval. simpl. reflexivity.
 Qed.
